@@ -249,7 +249,7 @@ def check(prop: str, tier: str, seed: int, only_cases: list[dict] | None = None,
   replay_paths = []
   if violations:
     verdict = 'violated'
-    rdir = os.path.join(HERE, 'replays')
+    rdir = os.environ.get('VP_REPLAY_DIR') or os.path.join(HERE, 'replays')
     os.makedirs(rdir, exist_ok=True)
     seen = set()
     for v in violations:
